@@ -845,6 +845,9 @@ func Compare(refTree *Tree, compTrees <-chan Trees, tips, comparetreeidentical b
 									common++
 								}
 							}
+							if common != total {
+								sametree = false
+							}
 						}
 					}
 				}
